@@ -38,7 +38,13 @@ func (c12) Gen(r *simrt.Rand, idx int, tier string) *Case {
 	type pair struct{ a, b string }
 	declared := map[pair]bool{}
 	addDecl := func(d Day, a, b string, p Q) {
-		j.Dirs = append(j.Dirs, Dir{Kind: "price", Date: d, Com: a, Price: p, Target: b, QStyle: r.Intn(3)})
+		dir := Dir{Kind: "price", Date: d, Com: a, Price: p, Target: b, QStyle: r.Intn(3)}
+		if r.P(0.1) {
+			// quotes with more digits than knut calculates with: they count as declared
+			// (in reciprocals and chains), and a tiny one is still not zero
+			dir.PriceStr = []string{"0.000000012", "0.0000000049", "1.123456789123", "12.3456789012345", "0.99999999999", "3.000000001"}[r.Intn(6)]
+		}
+		j.Dirs = append(j.Dirs, dir)
 		declared[pair{a, b}], declared[pair{b, a}] = true, true
 	}
 	price := func() Q {
